@@ -80,6 +80,9 @@ pub struct GenCfg {
     /// share of clean restarts that directly follow a send (see `Op::SendThenRestart`)
     #[serde(default)]
     pub send_then_restart_chance: f64,
+    /// share of token creations that start the "name of an expired token re-used" history
+    #[serde(default)]
+    pub pat_reuse_chance: f64,
 }
 
 impl Default for GenCfg {
@@ -108,6 +111,7 @@ impl Default for GenCfg {
             revocation_chance: 0.0,
             send_then_purge_chance: 0.0,
             send_then_restart_chance: 0.0,
+            pat_reuse_chance: 0.0,
         }
     }
 }
